@@ -1035,6 +1035,15 @@ func (x *X) invoke(fr *Frame, st *State, recv SV, m *types.Func, args []SV, pos 
 		if rets, ok := x.invokeByCases(fr, st, rv, m, args, pos); ok {
 			return rets
 		}
+		// an interface of the module with a single implementing type whose method
+		// is under contract (the parser's lexer interface): the call is a call of
+		// that method, on the assumption - recorded - that the receiver is of the
+		// one type that can be
+		if x.pure == 0 {
+			if rets, ok := x.invokeSoleImplementer(fr, st, rv, m, args, pos); ok {
+				return rets
+			}
+		}
 		// a method of the package under verification that receives a pointer to an
 		// opaque buffer (strings.Builder) may write it: the buffer is havoced and
 		// the call is recorded as one event of the caller's output trace
@@ -1564,4 +1573,30 @@ func siteClause(cl *Clause, pos token.Pos) *Clause {
 	c := &Clause{Kind: cl.Kind, Label: cl.Label, Props: cl.Props, Text: cl.Text, Callee: cl.Callee, Line: cl.Line}
 	m[pos] = c
 	return c
+}
+
+// invokeSoleImplementer resolves an interface call when exactly one type of the
+// module implements the interface and its method has a contract.
+func (x *X) invokeSoleImplementer(fr *Frame, st *State, recv Term, m *types.Func, args []SV, pos token.Pos) ([]SV, bool) {
+	sig := m.Type().(*types.Signature)
+	iface, ok := sig.Recv().Type().Underlying().(*types.Interface)
+	if !ok {
+		return nil, false
+	}
+	impls := x.implementers(iface)
+	if len(impls) != 1 {
+		return nil, false
+	}
+	sel := x.prog.MethodSets.MethodSet(impls[0]).Lookup(m.Pkg(), m.Name())
+	if sel == nil {
+		return nil, false
+	}
+	fn := x.prog.MethodValue(sel)
+	if fn == nil || x.db.byFn[fn] == nil {
+		return nil, false
+	}
+	cond, pv := x.typeTest(recv, impls[0])
+	x.enc.assumption("the only implementation of " + sig.Recv().Type().String() + " in the module is " + impls[0].String())
+	x.vc.assume(mkImplies(st.reach, cond))
+	return x.callStatic(fr, st, fn, append([]SV{pv}, args...), nil, pos), true
 }
